@@ -250,6 +250,40 @@ fn main() {
     }
     ev.add("nan_vectors", nan_vectors);
 
+    // long vectors with a single defect (tie / reversed step) at every position, and NaN at
+    // every position: catches block-wise or vectorised implementations that skip pairs
+    let mut systematic = 0u64;
+    for &len in &[17usize, 32, 33, 64, 65, 100, 129] {
+        for carrier in [0u8, 2u8] {
+            for pos in 0..len {
+                for defect in [1u8, 2 - carrier] {
+                    let mut word = vec![carrier; len];
+                    word[pos] = defect;
+                    check_word::<f64>(&word, &mut ev, 2_000_000 + systematic, &[0]);
+                    check_word::<i32>(&word, &mut ev, 2_000_000 + systematic, &[2]);
+                    systematic += 1;
+                }
+            }
+            // NaN at every position of a strictly ordered carrier
+            for pos in 0..=len {
+                let mut v: Vec<f64> = values(&vec![carrier; len]).iter().map(|&i| i as f64).collect();
+                v[pos] = f64::NAN;
+                let a: Array1<f64> = Array1::from(v);
+                ev.add("nan_classifications", 1);
+                match guard(|| of(&a.monotonic_prop())) {
+                    Ok(Cls::RisingStrict) | Ok(Cls::Rising) | Err(_) => ev.violation(
+                        "C12:nan-called-rising",
+                        &format!("vector of length {} with NaN at position {pos} classified as rising", len + 1),
+                        2_500_000 + pos as u64,
+                        J::obj().set("len", len + 1).set("nan_position", pos).set("carrier", carrier as u32),
+                    ),
+                    _ => {}
+                }
+            }
+        }
+    }
+    ev.add("systematic_long_vectors", systematic);
+
     // random long vectors
     let mut rng = Rng::derive(args.seed, "C12-long", &[0]);
     let long_n = args.budget(300, 10000);
